@@ -71,6 +71,9 @@ def collect(events, out):
         elif cur is not None:
             if ev[0] == 'wait':
                 out[cur]['us'].append(int(round(ev[1] * 1000000)))
+            elif ev[0] == 'wait_until':
+                # a time-of-day wait as a number: which minutes, how many of them (same encoding in both runs)
+                out[cur]['us'].append(700000000 + (sum(ev[1]) % 100000) * 1000 + len(ev[1]) % 1000)
             elif ev[0] == 'set_color':
                 out[cur]['colour'] = list(ev[2])
                 out[cur]['ms'].append(ev[3])
@@ -91,8 +94,10 @@ def run(report, replay=None):
 
     # (a) pairs
     chains = [c for n in (1, 2, 3, 4) for c in itertools.product(MODES, repeat=n)]
-    times = {'logical': [('0', '0'), ('0.5', '2'), ('2', '0.5'), ('10', '1.5')], 'rgb': [('0', '0'), ('0.5', '2'), ('10', '1.5')],
-             'raw': [('0', '0'), ('500', '2000'), ('10000', '1500')]}
+    # (`time at ...`: the pending delay is a time-of-day wait; a switch of units leaves it what it is)
+    times = {'logical': [('0', '0'), ('0.5', '2'), ('2', '0.5'), ('10', '1.5'), ('at 7:59', '2')],
+             'rgb': [('0', '0'), ('0.5', '2'), ('10', '1.5'), ('at 1*:30 or 7:59', '1.5')],
+             'raw': [('0', '0'), ('500', '2000'), ('10000', '1500'), ('at *:59', '2000')]}
     cases = []
     for mode in MODES:
         pts = grid(mode, tier, rng)
